@@ -1,0 +1,27 @@
+//! Seams for the external verification harness.
+//! Compiled only with `--features verif-hooks`; nothing here is reachable otherwise.
+use std::cell::RefCell;
+use std::collections::VecDeque;
+
+thread_local! {
+    static ENTROPY: RefCell<VecDeque<[u8; 32]>> = RefCell::new(VecDeque::new());
+    static RANDOM_KEYS: RefCell<VecDeque<Vec<u8>>> = RefCell::new(VecDeque::new());
+}
+
+/// Queue the 32 bytes that the next randomised-nonce signature on this thread uses instead of OsRng output.
+pub fn push_entropy(bytes: [u8; 32]) {
+    ENTROPY.with(|q| q.borrow_mut().push_back(bytes));
+}
+
+pub(crate) fn take_entropy() -> Option<[u8; 32]> {
+    ENTROPY.with(|q| q.borrow_mut().pop_front())
+}
+
+/// Queue the big-endian secret that the next `PrivateKey::from_random` on this thread returns.
+pub fn push_random_key(bytes: Vec<u8>) {
+    RANDOM_KEYS.with(|q| q.borrow_mut().push_back(bytes));
+}
+
+pub(crate) fn take_random_key() -> Option<Vec<u8>> {
+    RANDOM_KEYS.with(|q| q.borrow_mut().pop_front())
+}
